@@ -1072,8 +1072,11 @@ class FunctionScope(Scope):
             dict.fromkeys(self.name_to_current_definition_nodes[varname])
         )
         # We set both a constraint and its inverse using the same node as the definition
-        # node, so cheat and include the constraint itself in the key.
-        node = (node, constraint)
+        # node, so cheat and include the constraint itself in the key. The same constraint
+        # object can be applied at the same node again (a condition saved in a variable and
+        # tested inside a loop body, which is visited twice): give every application its own
+        # node, otherwise the node is overwritten and may end up among its own definition nodes.
+        node = (node, constraint, len(self.definition_node_to_value))
         val = _ConstrainedValue(def_nodes, [constraint])
         self.definition_node_to_value[node] = val
         self.name_to_current_definition_nodes[varname] = [node]
